@@ -1,6 +1,6 @@
 (* C03 — restrict keeps exactly the samples inside the closed intervals, rows intact.
    Only statements and `exact`; the proofs are in Proofs/RestrictProofs.v. *)
-From Verif Require Import Base.Prelude Model.Restrict Proofs.RestrictProofs.
+From Verif Require Import Base.Prelude Model.Restrict Model.Iset Proofs.RestrictProofs Proofs.C02Top Proofs.C03Compose.
 
 (* 1. the scan selects exactly the positions whose timestamp lies in some closed interval,
       in the original order (duplicates kept) *)
@@ -27,6 +27,13 @@ Theorem C03_compose : forall ts a b, sortedZ ts -> canonical a -> canonical b ->
   restrict_ts (restrict_ts ts a) b = filter (fun x => mem x a && mem x b) ts.
 Proof. exact restrict_restrict. Qed.
 Print Assumptions C03_compose.
+
+(* 3b. ... and that is restriction by a.intersect(b) for samples farther than 1 us from every endpoint *)
+Theorem C03_compose_intersect : forall ts a b, sortedZ ts -> canonical a -> canonical b ->
+  Forall (fun x => far x a b) ts ->
+  restrict_ts (restrict_ts ts a) b = restrict_ts ts (iset_inter a b).
+Proof. exact restrict_restrict_intersect. Qed.
+Print Assumptions C03_compose_intersect.
 
 (* 4. the result is sorted and inside the new support *)
 Theorem C03_in_support : forall ts ep, sortedZ ts -> canonical ep ->
